@@ -55,6 +55,21 @@ def Guarded : Prog → Bool
 def pipeline (pseed : Option Nat) (models : List Prog) : Prog :=
   .seeded pseed (models.foldr Prog.seq Prog.skip)
 
+/-- an exposure: all `steps` readout steps of the same models inside one seeded region -/
+def exposure (pseed : Option Nat) (models : List Prog) (steps : Nat) : Prog :=
+  .seeded pseed ((List.replicate steps (models.foldr Prog.seq Prog.skip)).foldr Prog.seq Prog.skip)
+
+/-- several runs one after the other; the sequence stops at the first run that fails.
+Result: final generator, the draws of every run that was started, whether a run failed. -/
+def execRuns {G D} (gen : Gen G D) : G → List Prog → G × List (List D) × Bool
+  | g, [] => (g, [], false)
+  | g, p :: ps =>
+    let r := exec gen g p
+    if r.failed then (r.g, [r.out], true)
+    else
+      let q := execRuns gen r.g ps
+      (q.1, r.out :: q.2.1, q.2.2)
+
 /-! ## threads: seeded regions of several threads on ONE shared generator, with the lock
 
 Thread `t` executes one seeded region with seed `sd t` and `k t` draws, as atomic actions
